@@ -224,13 +224,24 @@ def hash_tree(root):
 FRUGAL = os.path.join(vlib.BIN, "frugal")
 
 
-def run_frugal(cwd, file_arg, gen, out_arg, out_abs, recurse=True, keep_out=False):
-    """One compilation in a fresh process. Returns (rc, hashes or message)."""
+FRUGAL_VERIF = os.path.join(vlib.BIN, "frugal_verif")
+OTHER_DAY = "2031-03-07T23:59:30Z"
+
+
+def dated_by_design(gen):
+    """java stamps the day into @Generated unless generated_annotations is undated or suppress"""
+    return gen.split(":")[0] == "java" and "generated_annotations=undated" not in gen and "generated_annotations=suppress" not in gen
+
+
+def run_frugal(cwd, file_arg, gen, out_arg, out_abs, recurse=True, keep_out=False, other_day=False):
+    """One compilation in a fresh process. Returns (rc, hashes or message).  other_day: the compiler built with the verif
+    tag, told (FRUGAL_VERIF_NOW) that it runs on another day, another year."""
     if not keep_out:
         shutil.rmtree(out_abs, ignore_errors=True)
     try:
-        p = subprocess.run([FRUGAL] + (["-r"] if recurse else []) + ["-gen", gen, "-out", out_arg, file_arg], cwd=cwd,
-                           capture_output=True, timeout=120)
+        p = subprocess.run([FRUGAL_VERIF if other_day else FRUGAL] + (["-r"] if recurse else []) + ["-gen", gen, "-out", out_arg, file_arg],
+                           cwd=cwd, capture_output=True, timeout=120,
+                           env=dict(os.environ, FRUGAL_VERIF_NOW=OTHER_DAY) if other_day else None)
     except subprocess.TimeoutExpired:
         return 124, "timeout"
     msg = (p.stdout + p.stderr).decode("utf8", "replace")
@@ -376,6 +387,11 @@ def run(ctx, br):
             if others and "use_vendor" not in gen:
                 o = os.path.join(outs, tag, "reused")
                 jobs.append((prog, gen, "reused-out:" + others[(gi + pid) % len(others)], a, prog["main"], o, o))
+            # the same compilation on another day (the clock is an input of the tagged compiler), unless the option set
+            # stamps the day by design
+            if os.path.exists(FRUGAL_VERIF) and not dated_by_design(gen):
+                o = os.path.join(outs, tag, "otherday")
+                jobs.append((prog, gen, "other-day", a, prog["main"], o, o))
             # cwd is the parent of the source root; relative file and an unclean relative -out
             par = os.path.dirname(b)
             jobs.append((prog, gen, "parent-cwd-unclean-out", par, os.path.join(os.path.basename(b), prog["main"]),
@@ -388,7 +404,7 @@ def run(ctx, br):
             r0 = run_frugal(cwd, fa, label.split(":", 1)[1], oa, oabs)
             r = run_frugal(cwd, fa, gen, oa, oabs, keep_out=True) if r0[0] == 0 else r0
         else:
-            r = run_frugal(cwd, fa, gen, oa, oabs)
+            r = run_frugal(cwd, fa, gen, oa, oabs, other_day=(label == "other-day"))
         shutil.rmtree(oabs, ignore_errors=True)      # only the hashes are kept
         return r
 
@@ -425,7 +441,8 @@ def run(ctx, br):
         if d:
             oracle_fail += 1
             kind = "repeated run" if label.startswith("rep") and not label.startswith("reused") else \
-                ("a non-empty -out directory (%s)" % label if label.startswith("reused") else "location change (%s)" % label)
+                ("a non-empty -out directory (%s)" % label if label.startswith("reused") else
+                 "days (the compiler told it is %s)" % OTHER_DAY if label == "other-day" else "location change (%s)" % label)
             ctx.violation("C19 oracle: output differs across %s" % kind, {
                 "gen": gen, "variant": label, "differing_files": d[:10],
                 "first": {"cwd": prog["rootA"], "cmd": "frugal -r -gen %s -out <out> %s" % (gen, prog["main"])},
@@ -644,12 +661,15 @@ def run(ctx, br):
         "distinct_nontrivial": distinct,
         "rule": "distinct (program, target/option set) pairs whose program has >= 8 include edges; each compiled %d times in "
                 "fresh processes plus 3 location variants (other cwd + absolute paths, other source root + relative -out, "
-                "parent cwd + unclean -out) plus in-process sequences; programs: %s" % (
+                "parent cwd + unclean -out), in a non-empty -out directory, and ON ANOTHER DAY (the compiler built with the verif tag "
+                "is told through FRUGAL_VERIF_NOW that it is 2031-03-07; not for the java option sets that stamp the day by design) "
+                "plus in-process sequences; programs: %s" % (
                     reps, [(p["n_files"], p["n_includes_total"], "twins" if p["twins"] else "") for p in programs]),
         "traces_validated_against_impl": len([v for v in verdicts if v >= 0]),
         "judge_cases": len(cases),
         "judge_mismatches": len(mism),
         "oracle_failures": oracle_fail,
+        "other_day_compilations": sum(1 for j in jobs if j[2] == "other-day"),
         "model_branch_tags": tags,
         "emitted_files_per_base_run_total": emitted_files,
         "input_histogram": hist,
